@@ -699,6 +699,11 @@ func GetCallable(mroPaths []string, name string, compile bool) (syntax.Callable,
 					// skip, private file
 				} else if data, err := os.ReadFile(path.Join(mroPath, fpath)); err == nil {
 					if ast, err := parse(data, fpath); err == nil {
+						if !compile {
+							// Try to initialize the type table, but don't
+							// worry about failures, as in GetCallableFrom.
+							_ = ast.CompileTypes()
+						}
 						for _, callable := range ast.Callables.List {
 							if callable.GetId() == name {
 								return callable, &ast.TypeTable, nil
